@@ -59,12 +59,40 @@ def flags(root, logctx, ndebug=True):
     return fl
 
 
+GENERATED = ["Lib/core/public/module/cmn.h", "Lib/core/public/module/ctx.h"]   # configure_file() outputs, git-ignored
+
+
+def generated_overlay(root, cdir):
+    """cmake's configure_file() writes cmn.h/ctx.h into the source tree; a tree that was never configured lacks them.
+    Re-create them from the .in templates for the analysed configuration (every @VAR@ empty: no fuse fs) in an overlay
+    include directory.  Returns extra -I flags ([] when the tree has the headers)."""
+    import re
+    extra = []
+    for rel in GENERATED:
+        if os.path.exists(os.path.join(root, rel)):
+            continue
+        tin = os.path.join(root, rel + ".in")
+        if not os.path.exists(tin):
+            raise AnalysisBroken("generated header %s and its template are both missing" % rel)
+        g = os.path.join(cdir, "gen")
+        out = os.path.join(g, "public", "module", os.path.basename(rel))
+        os.makedirs(os.path.dirname(out), exist_ok=True)
+        with open(tin) as fh:
+            txt = re.sub(r"@[A-Za-z_0-9]+@", "", fh.read())
+        tmp = out + ".tmp%d" % os.getpid()
+        with open(tmp, "w") as fh:
+            fh.write(txt)
+        os.replace(tmp, out)
+        extra = ["-I" + g, "-I" + os.path.join(g, "public")]
+    return extra
+
+
 def tree_hash(root):
     h = hashlib.sha256()
     files = []
     for dp, dn, fn in os.walk(os.path.join(root, "Lib")):
         for f in fn:
-            if f.endswith((".c", ".h")):
+            if f.endswith((".c", ".h", ".h.in")):
                 files.append(os.path.join(dp, f))
     for f in sorted(files):
         h.update(os.path.relpath(f, root).encode())
@@ -85,12 +113,14 @@ def extract(root, ndebug=True, jobs=16):
     cdir = os.path.join(CACHE, key)
     os.makedirs(cdir, exist_ok=True)
 
+    extra = generated_overlay(root, cdir)
+
     def one(u):
         rel, ctx = u
         out = os.path.join(cdir, rel.replace("/", "__") + ".json")
         if not os.path.exists(out):
             tmp = out + ".tmp%d" % os.getpid()
-            cmd = [LMFACTS, tmp, os.path.join(root, rel), "--"] + flags(root, ctx, ndebug)
+            cmd = [LMFACTS, tmp, os.path.join(root, rel), "--"] + flags(root, ctx, ndebug) + extra
             r = subprocess.run(cmd, stdout=subprocess.PIPE, stderr=subprocess.PIPE, text=True)
             if r.returncode != 0 or not os.path.exists(tmp):
                 raise AnalysisBroken("fact extraction failed for %s:\n%s" % (rel, r.stderr[-2000:]))
